@@ -54,7 +54,7 @@ def _setup() -> None:
     L["-oo"] = -sp.oo
     L["nan"] = sp.nan
     for n in ("meter", "second", "kilogram", "gram", "kelvin", "newton", "joule", "radian",
-        "electronvolt", "centimeter"):
+        "electronvolt", "centimeter", "hertz"):
         L[n] = getattr(U, n)
     L["kilo"] = kilo
     L["milli"] = milli
@@ -83,7 +83,7 @@ def _setup() -> None:
 
 FULL = ["2", "-3", "1/2", "1.5", "I", "0", "oo", "-oo", "nan", "meter", "second", "kilogram",
     "gram", "kelvin", "newton", "joule", "radian", "electronvolt", "centimeter", "kilo", "milli",
-    "Q3m", "Q0len", "Q2s", "Q5", "Qm4m", "Q3kg", "x", "D", "1e-200", "Qtiny", "Qhuge"]
+    "Q3m", "Q0len", "Q2s", "Q5", "Qm4m", "Q3kg", "x", "D", "1e-200", "Qtiny", "Qhuge", "hertz"]
 MEDIUM = ["2", "-3", "0", "oo", "nan", "meter", "second", "kilogram", "newton", "radian", "kilo",
     "Q3m", "Q0len", "Q2s", "Qm4m", "x", "Qtiny", "Qhuge"]
 REDUCED = ["2", "0", "oo", "meter", "second", "kilo", "Q3m", "Q0len", "x"]
